@@ -7,5 +7,6 @@ ASSUME JsonSerialize(IOEnv.VERIF_OUT,
          [full   |-> SetToSeq(FaultsFull),
           assume |-> SetToSeq(FaultsAssume),
           hist   |-> SetToSeq(FaultsHist),
+          cancel |-> SetToSeq(FaultsCancel),
           T      |-> 4])
 =============================================================================
